@@ -14,3 +14,5 @@ if [ ! -x $V/bin/python ] || ! $V/bin/python -c "import z3, jsonschema" 2>/dev/n
   $V/bin/python -m pip install -q --no-index --find-links /opt/veriftools/wheels cvc5 numpy 2>/dev/null || true
 fi
 $V/bin/python -c "import z3, mpyc, jsonschema; print('setup ok: z3', z3.get_version_string(), 'mpyc', mpyc.__version__, mpyc.__file__)"
+# engine self-test (SymInt operators vs Python semantics, Int->BV translator vs z3 Int): must report 0 mismatches
+PYTHONPATH="$PWD" $V/bin/python -m vf.selftest
